@@ -107,8 +107,8 @@ func registerAll() {
 	const tCFG = "CFG path rules on go/ssa (must-precede, edge dominance, loop-iteration coverage, error-edge reachability)"
 	propTable["C01"] = &PropSpec{
 		ID:          "C01",
-		Rules:       []string{"L8", "L7", "L9", "R6", "B1", "L6", "R1", "R7", "N1", "N2", "N4", "L16"},
-		Explanation: "structural necessary conditions of sequence behaviour: every index-out-of-bounds rejection is taken exactly when the request is out of range for the operation (index >= count for access, index > count for insertion; decided by case analysis over the three orderings of index and bound) and cannot be passed when out of range; whatever replaces the root carries the id read from the previous root (so the array can always be reopened by its identifier); every write of an element list or child header table is accompanied on every success path by the matching size / count / cumulative-count update; after a child mutation every success path evaluates the split / merge decision and refreshes the parent's header copy, and the handle evaluates root.IsFull and single-child promotion; out-of-range requests are rejected before any effect; elements are materialised with the array's inline limit; every slab mutated or created by an operation is stored (or its parent notified) before the operation returns, so a later reopen by the root identifier sees the same sequence; the index kept for nested containers is deleted with the element it tracks and reset by a bulk pop (a stale entry makes the next in-range Insert fail); a nested container's parent-updater callback writes into the array only after confirming, by value id, that the slot still holds that container. Cached sizes start from the encoded prefix of the object's kind and state wherever they are established or re-based (a wrong prefix wraps around on the next re-basing and makes an in-range request fail in splitRoot). An element overwritten with the very container it already holds is recognised before the overwritten storable is uninlined (otherwise the slab just stored as the new element is un-inlined under the parent).",
+		Rules:       []string{"L8", "L7", "L9", "R6", "B1", "L6", "R1", "R7", "N1", "N2", "N4", "L16", "X7"},
+		Explanation: "structural necessary conditions of sequence behaviour: every index-out-of-bounds rejection is taken exactly when the request is out of range for the operation (index >= count for access, index > count for insertion; decided by case analysis over the three orderings of index and bound) and cannot be passed when out of range; whatever replaces the root carries the id read from the previous root (so the array can always be reopened by its identifier); every write of an element list or child header table is accompanied on every success path by the matching size / count / cumulative-count update; after a child mutation every success path evaluates the split / merge decision and refreshes the parent's header copy, and the handle evaluates root.IsFull and single-child promotion; out-of-range requests are rejected before any effect; elements are materialised with the array's inline limit; every slab mutated or created by an operation is stored (or its parent notified) before the operation returns, so a later reopen by the root identifier sees the same sequence; the index kept for nested containers is deleted with the element it tracks and reset by a bulk pop (a stale entry makes the next in-range Insert fail); a nested container's parent-updater callback writes into the array only after confirming, by value id, that the slot still holds that container. Cached sizes start from the encoded prefix of the object's kind and state wherever they are established or re-based (a wrong prefix wraps around on the next re-basing and makes an in-range request fail in splitRoot). An element overwritten with the very container it already holds is recognised before the overwritten storable is uninlined (otherwise the slab just stored as the new element is un-inlined under the parent). Decoded inlined arrays own their extra data (a type change of one reloaded child must not change the type its siblings report).",
 		NotDecided:  "that returned elements equal the sequence model: index routing (linear scan / binary search over cumulative counts), split/merge/borrow arithmetic and 'in-range requests never fail' are value-dependent and not decided statically.",
 		Technique:   "co-update path rules, must-pass-through rules and reject-before-effect typestate over go/ssa",
 	}
@@ -129,14 +129,14 @@ func registerAll() {
 	propTable["C03"] = &PropSpec{
 		ID:          "C03",
 		Rules:       []string{"R1", "R2", "R4", "S1", "S2", "S3", "S4", "S5", "S10"},
-		Explanation: "every slab mutated or created on a success path is stored or removed before the API call returns (typestate over slab objects with interprocedural summaries; re-keyed slabs need a later store; stores guarded by !inlined hand over to the notify-parent rule), every allocated id becomes a slab identity, every exported mutator notifies its parent; registers are written or deleted only by routines reachable exclusively through the commit entry points (call-graph closure over every exported/API function); Ledger.SetValue only inside the BaseStorage adapter; every collector of commit keys guards each key by address != AddressUndefined and records every owned key; every completed apply-loop iteration issues a register write; no register-write/encode/worker error is swallowed by a commit that returns nil.",
+		Explanation: "every slab mutated or created on a success path is stored or removed before the API call returns (typestate over slab objects with interprocedural summaries; re-keyed slabs need a later store; stores guarded by !inlined hand over to the notify-parent rule), every allocated id becomes a slab identity, every exported mutator notifies its parent; registers are written or deleted only by routines reachable exclusively through the commit entry points (call-graph closure over every exported/API function); Ledger.SetValue only inside the BaseStorage adapter; every collector of commit keys guards each key by address != AddressUndefined and records every owned key; every completed apply-loop iteration issues a register write; no register-write/encode/worker error is swallowed by a commit that returns nil. The error of a register write surfaces also through the wrap helpers (which return nil for a nil argument: the value wrapped must be the failing call's error on that path). Every collected owned key is applied on every success path of a commit (walked by a register-writing loop or helper, or fed to workers whose results are applied); no view of the collected keys other than the exact collected regions is used.",
 		NotDecided:  "that the encoded content equals the in-memory content (C07), determinism (C04); batch builders are analysed with weak updates on their slab collections.",
 		Technique:   "call-graph reachability (who-may-write-registers) + " + tCFG,
 	}
 	propTable["C04"] = &PropSpec{
 		ID:          "C04",
-		Rules:       []string{"D1", "D2", "D3", "D4", "S6", "G2", "S2"},
-		Explanation: "no Go-map iteration order can reach results: every map range in deterministic code is collect-then-sort or commutative, order-relaxed routines are unreachable from deterministic entry points; the deterministic commit walks, first to last, a slice that its collector sorts on every path with a comparator that is decided by order abstraction (all 9 address x index orderings) to be ascending (owner, index), with big-endian integer views; worker results are applied by key only after the drain; the map seed derives only from the fresh slab id / an existing seed; pooled objects are Reset before reuse and Reset covers every field read; no clock, randomness, address or scheduling source is imported or used.",
+		Rules:       []string{"D1", "D2", "D3", "D4", "S6", "G2", "S2", "G4"},
+		Explanation: "no Go-map iteration order can reach results: every map range in deterministic code is collect-then-sort or commutative, order-relaxed routines are unreachable from deterministic entry points; the deterministic commit walks, first to last, a slice that its collector sorts on every path with a comparator that is decided by order abstraction (all 9 address x index orderings) to be ascending (owner, index), with big-endian integer views; worker results are applied by key only after the drain; the map seed derives only from the fresh slab id / an existing seed; pooled objects are Reset before reuse and Reset covers every field read; no clock, randomness, address or scheduling source is imported or used. A pooled object is returned to its pool at most once (a double put hands one buffer to two encoders, so the bytes of a register depend on worker count and scheduling).",
 		NotDecided:  "determinism of client Value/TypeInfo encoders and of the CBOR library; byte-identity of two executions as such.",
 		Technique:   "map-range classification over SSA loops, order-abstraction interpretation of the sort comparator, backward slices (seed), import/AST scan",
 	}
@@ -163,8 +163,8 @@ func registerAll() {
 	}
 	propTable["C11"] = &PropSpec{
 		ID:          "C11",
-		Rules:       []string{"R7", "N1", "N2", "N4", "N3", "R3", "X7", "N5"},
-		Explanation: "every Storable returned by an exported Array/OrderedMap method is the result of uninlineStorableIfNeeded (so a detached inlined child becomes a stored standalone slab) and that helper uninlines both slab kinds; the mutableElementIndex entry of a removed/overwritten child is deleted, guarded only by identity tests; parent-updater callbacks re-set the child only on paths that passed the true edge of a ValueID.equal test and after a fresh lookup; parentUpdater is assigned only by setParentUpdater and cleared only on the not-found edge of its own invocation. The identity predicate ValueID.equal(SlabID) is the conjunction of address equality and index equality on the right halves of the value id; a bulk pop resets the child index. An element overwritten with the very container it already holds is recognised before the overwritten storable is uninlined (otherwise the slab just stored as the new element is un-inlined under the parent).",
+		Rules:       []string{"R7", "N1", "N2", "N4", "N3", "R3", "X7", "N5", "R1", "R6"},
+		Explanation: "every Storable returned by an exported Array/OrderedMap method is the result of uninlineStorableIfNeeded (so a detached inlined child becomes a stored standalone slab) and that helper uninlines both slab kinds; the mutableElementIndex entry of a removed/overwritten child is deleted, guarded only by identity tests; parent-updater callbacks re-set the child only on paths that passed the true edge of a ValueID.equal test and after a fresh lookup; parentUpdater is assigned only by setParentUpdater and cleared only on the not-found edge of its own invocation. The identity predicate ValueID.equal(SlabID) is the conjunction of address equality and index equality on the right halves of the value id; a bulk pop resets the child index. An element overwritten with the very container it already holds is recognised before the overwritten storable is uninlined (otherwise the slab just stored as the new element is un-inlined under the parent). Every slab a mutation creates or modifies is stored before the API call returns also when the container is a detached child whose stale parent callback is still installed (the callback of a detached child stores nothing), and a request that is rejected for its arguments has no effect on the value it was given (a rejected Insert must not have inlined - and thereby deleted - the detached container it was asked to insert).",
 		NotDecided:  "that re-validation compares the right element after arbitrary histories; equality of identity after reattachment.",
 		Technique:   "value-flow on return operands, control-dependence slices, edge-restricted reachability in callback closures",
 	}
@@ -213,28 +213,28 @@ func registerAll() {
 	propTable["C17"] = &PropSpec{
 		ID:          "C17",
 		Rules:       []string{"X5", "X6", "R1", "R2", "L14", "L17", "X9", "R3"},
-		Explanation: "for every type with a can-copy/copy pair the predicate is constant false exactly when the operation fails on every path, and non-constant predicates refuse on exactly the receiver state the operation fails on (the rest is delegated to the elements' own pair); every slice/map/pointer field of a copy receives a fresh or cloned value, never one loaded from the source. The batch builders build the next tree level only from at least two slabs (tested on the slice after the tail merge) and merge / rebalance the underfull last slab of a level on the correct decision edges.",
+		Explanation: "for every type with a can-copy/copy pair the predicate is constant false exactly when the operation fails on every path, and non-constant predicates refuse on exactly the receiver state the operation fails on (the rest is delegated to the elements' own pair); every slice/map/pointer field of a copy receives a fresh or cloned value, never one loaded from the source. The batch builders build the next tree level only from at least two slabs (tested on the slice after the tail merge) and merge / rebalance the underfull last slab of a level on the correct decision edges. Every field of every struct a copy function builds is assigned (nothing is silently zero in the copy), and the batch builders remove - or never store - a slab they merge away.",
 		NotDecided:  "equality of content, validity 'as if built by individual operations' (tail-rebalance arithmetic), byte-array conversions.",
 		Technique:   "return-constant and control-dependence comparison of sibling methods; alias check on stores into the fresh result",
 	}
 	propTable["C18"] = &PropSpec{
 		ID:          "C18",
 		Rules:       []string{"R6", "B1", "E1", "E2", "K1"},
-		Explanation: "in every function that can return a request rejection (index/range out of bounds, absent key, collision limit, element-count limit, undefined identifier; propagated interprocedurally but not across the storage component boundary) no mutation, store, removal, id allocation, write-set change or Value.Storable call precedes the rejection on any path; each rejection constructor named by the property ends in the contract's category constructor (index/range/absent key/element count/element type -> UserError; collision limit, undefined id, slab not found -> FatalError), every other constructor is categorised, the category types keep Unwrap and the wrap helper recognises all three categories; no error returned by a caller-supplied component (Ledger, BaseStorage, SlabStorage, DigesterBuilder, ValueComparator, HashInputProvider) leaves a function raw; the collision-limit rejection precedes every effect.",
+		Explanation: "in every function that can return a request rejection (index/range out of bounds, absent key, collision limit, element-count limit, undefined identifier; propagated interprocedurally but not across the storage component boundary) no mutation, store, removal, id allocation, write-set change or Value.Storable call precedes the rejection on any path; each rejection constructor named by the property ends in the contract's category constructor (index/range/absent key/element count/element type -> UserError; collision limit, undefined id, slab not found -> FatalError), every other constructor is categorised, the category types keep Unwrap and the wrap helper recognises all three categories; no error returned by a caller-supplied component (Ledger, BaseStorage, SlabStorage, DigesterBuilder, ValueComparator, HashInputProvider) leaves a function raw; the collision-limit rejection precedes every effect. A found / ok flag returned next to the error of a caller-supplied component is consulted only where the error is known to be nil, and such an error is never handed to a library error constructor other than the external-error wrappers.",
 		NotDecided:  "message text ('error names the cause'); effects inside client callbacks (Value.Storable is treated as an effect).",
 		Technique:   "constructor delegation resolution, taint from interface/func-value call results to return operands, backward reachability",
 	}
 	propTable["C19"] = &PropSpec{
 		ID:          "C19",
 		Rules:       []string{"P2", "P3", "P5", "P6", "P7", "P8", "X1"},
-		Explanation: "over the whole decode scope (everything reachable from DecodeSlab, the raw-header queries, the inlined-storable decoders and the size/child-reference accessors): no explicit panic except the unreachable tail of an exhaustive family switch; no unproven single-result type assertion; every slice expression, index and fixed-width big-endian read is covered by a dominating length fact (constant and exact guards tracked through reslicing and phis, call-site facts for private helpers, success post-conditions of helpers, range loops, symbolic guards, count==len guards) or by the stride-loop / chunked-read idioms whose arithmetic is checked (offset induction, per-entry stride, guard len==stride*n); every make is bounded by a length, a 16-bit field or a CBOR-delivered count; every loop is a range/counter/worklist loop; decoded sizes are added with overflow checks; decoded literals set the fields their accessors dereference.",
+		Explanation: "over the whole decode scope (everything reachable from DecodeSlab, the raw-header queries, the inlined-storable decoders and the size/child-reference accessors): no explicit panic except the unreachable tail of an exhaustive family switch; no unproven single-result type assertion; every slice expression, index and fixed-width big-endian read is covered by a dominating length fact (constant and exact guards tracked through reslicing and phis, call-site facts for private helpers, success post-conditions of helpers, range loops, symbolic guards, count==len guards) or by the stride-loop / chunked-read idioms whose arithmetic is checked (offset induction, per-entry stride, guard len==stride*n); every make is bounded by a length, a 16-bit field or a CBOR-delivered count; every loop is a range/counter/worklist loop; decoded sizes are added with overflow checks; decoded literals set the fields their accessors dereference. An allocation in an accessor of a decoded slab is sized by a length or a narrow field, never by a wide count field whose value comes from the register.",
 		NotDecided:  "panics inside the CBOR library or client StorableDecoder/TypeInfoDecoder callbacks (A-CBOR, A-CLIENT), allocation proportionality of nested content, runtime nil dereferences other than the accessor fields checked by P8.",
 		Technique:   "forward length-lower-bound dataflow with dominating-guard facts over go/ssa, loop-idiom recognisers, call-graph scoped lint rules",
 	}
 	propTable["C20"] = &PropSpec{
 		ID:          "C20",
 		Rules:       []string{"X1", "X2", "X3", "S9"},
-		Explanation: "reference enumeration is complete over slab/element kinds (type switches) and over reference-bearing fields (ChildStorables coverage); the three walkers recognise SlabIDStorable and descend through nested storables; getAllChildReferences splits broken from resolved references by the found flag; each failure mode of the property (second parent, owner mismatch, missing slab, root count, unreachable slab) controls an error return of CheckStorageHealth; the checker and the reference query cannot reach a writer of the write set or of registers. getAllChildReferences queues the children of every resolved slab on every path; CheckStorageHealth resolves every recorded reference against the slabs of the storage, not only those on a path from a childless slab to a root.",
+		Explanation: "reference enumeration is complete over slab/element kinds (type switches) and over reference-bearing fields (ChildStorables coverage); the three walkers recognise SlabIDStorable and descend through nested storables; getAllChildReferences splits broken from resolved references by the found flag; each failure mode of the property (second parent, owner mismatch, missing slab, root count, unreachable slab) controls an error return of CheckStorageHealth; the checker and the reference query cannot reach a writer of the write set or of registers. getAllChildReferences queues the children of every resolved slab on every path; CheckStorageHealth resolves every recorded reference against the slabs of the storage, not only those on a path from a childless slab to a root. The slab iterator the check is built on enumerates the write set and the read cache themselves, with no owner filter (temporary-address slabs live only in the write set), and no success path of the check bypasses the pass that resolves every recorded reference.",
 		NotDecided:  "that the predicates are evaluated on the right ids for every storage (value-level).",
 		Technique:   "structural shape rules over go/ssa + call-graph reachability",
 	}
